@@ -150,7 +150,7 @@ func (g *c12Gen) boolean(p string) string {
 func (g *c12Gen) item(p string, i int, top bool) string {
 	alias := fmt.Sprintf("c%d", i)
 	kinds := []string{"col", "num", "str", "bool", "null", "tuple", "array", "subquery", "exists", "async", "backref", "nestedcol", "first", "last", "elementat", "once", "objcol", "fuse", "asyncstr", "subquery_async",
-		"fuse_sub", "await", "star_sub", "selector", "hash", "encode", "fuse_alias", "report", "constant", "scoped", "marker_col"}
+		"fuse_sub", "await", "star_sub", "selector", "hash", "encode", "fuse_alias", "report", "constant", "scoped", "marker_col", "await_sub", "nested_marker", "fuse_async"}
 	if !top || p != "" {
 		kinds = []string{"col", "num", "str", "bool", "null", "tuple", "array", "async", "objcol"}
 	}
@@ -206,7 +206,21 @@ func (g *c12Gen) item(p string, i int, top bool) string {
 	case "marker_col":
 		// the back-reference itself read as a value: the enclosing document (CTE results are written into it)
 		return fmt.Sprintf("%s AS %s", g.pick("marker_form", "(SELECT `<-` AS up FROM dual)", "(SELECT `<-` AS up, v FROM n)", "(SELECT ARRAY(`<-`, 1) AS up FROM dual)",
-			"(SELECT (`<-`, 2) AS up FROM dual)", "(SELECT FUSE(`<-`) FROM dual)", "(SELECT `<-"+g.root+"meta` AS m, `<-` AS up FROM dual)"), alias)
+			"(SELECT (`<-`, 2) AS up FROM dual)", "(SELECT FUSE(`<-`) FROM dual)", "(SELECT `<-"+g.root+"meta` AS m, `<-` AS up FROM dual)", "(SELECT (SELECT `<-` AS d FROM dual) AS y FROM dual)"), alias)
+	case "await_sub":
+		// the awaited expression is a nested select: what it defers is registered while the deferred work is already running
+		g.site++
+		g.sites = append(g.sites, g.site)
+		return fmt.Sprintf("AWAIT(%s) AS %s", g.pick("await_sub_form", "(SELECT * FROM dual)", fmt.Sprintf("(SELECT ASYNC.fx(%d, a) AS v FROM dual)", g.site), "(SELECT v FROM n)",
+			fmt.Sprintf("AWAIT(ASYNC.fx(%d, a))", g.site), "AWAIT(a)", "FUSE(o)", "(SELECT FUSE(o) FROM dual)"), alias)
+	case "nested_marker":
+		// engine-internal markers (omit, fuse) as arguments of other expressions
+		return fmt.Sprintf("%s AS %s", g.pick("nested_marker_form", "ARRAY(SETVAR('k', "+p+"a))", "ARRAY(REPORT('e'), 1)", "ARRAY(FUSE("+p+"o))", "(FUSE("+p+"o), 1)", "CONCAT('a', SETVAR('k', 1))",
+			"IF("+p+"f, FUSE("+p+"o), 0)", "CASE WHEN "+p+"f THEN SETVAR('k', 2) ELSE 1 END", "FIRST(ARRAY(FUSE("+p+"o)))"), alias)
+	case "fuse_async":
+		g.site++
+		g.sites = append(g.sites, g.site)
+		return fmt.Sprintf("FUSE((SELECT ASYNC.fx(%d, a) AS fa%d FROM dual))", g.site, g.site)
 	case "fuse_alias":
 		// an aliased FUSE blends the keys in under a prefix
 		return fmt.Sprintf("FUSE(%s) AS %s", g.pick("fuse_alias_arg", "o", "(SELECT p, q FROM o)", "(SELECT * FROM dual)"), alias)
@@ -316,7 +330,7 @@ func genC12(t *rapid.T) *Bundle {
 	}
 	g := &c12Gen{t: t, root: root}
 	T, U := root+"t", root+"u"
-	shape := g.pick("shape", "plain", "plain", "where", "order_total", "order_ties", "limit", "distinct", "group", "whole_agg", "join", "pjoin", "derived", "cte", "cte_direct", "dual", "union", "slice", "alias", "star", "nested_from", "group_star", "in_subquery", "having", "cte_col", "cte_twice", "offset_window", "join_into", "join_into", "join_unaliased", "distinct_async", "grid", "grid_cte", "grid_distinct")
+	shape := g.pick("shape", "plain", "plain", "where", "order_total", "order_ties", "limit", "distinct", "group", "whole_agg", "join", "pjoin", "derived", "cte", "cte_direct", "dual", "union", "slice", "alias", "star", "nested_from", "group_star", "in_subquery", "having", "cte_col", "cte_twice", "offset_window", "join_into", "join_into", "join_unaliased", "distinct_async", "grid", "grid_cte", "grid_distinct", "join_derived_side", "cte_dual_star")
 	seq := true
 	var q string
 	switch shape {
@@ -385,6 +399,16 @@ func genC12(t *rapid.T) *Bundle {
 		q = fmt.Sprintf("WITH c AS (SELECT %s FROM %s) SELECT %s FROM dual", g.items("", true), T, g.pick("cte_col_sel", "c", "c AS cc, "+root+"meta", "*", "c, *"))
 	case "cte_twice":
 		q = fmt.Sprintf("WITH c AS (SELECT id, a FROM %s) SELECT id, (SELECT a FROM `<-c` WHERE a >= 10) AS again FROM c", T)
+	case "join_derived_side":
+		// a derived table as one side of a join: what it defers (ASYNC slots, AWAIT) has to reach the joining query
+		q = fmt.Sprintf("SELECT * FROM (SELECT id, %s FROM %s) x %s %s y ON x.id = y.id", g.items("", true), T, g.pick("jds_jt", "JOIN", "LEFT JOIN", "PARALLEL JOIN", "HASH_JOIN"), U)
+		if rapid.Bool().Draw(t, "jds_swap") {
+			q = fmt.Sprintf("SELECT * FROM %s y %s (SELECT id, %s FROM %s) x ON x.id = y.id", U, g.pick("jds_jt2", "JOIN", "RIGHT JOIN"), g.items("", true), T)
+		}
+		seq = false
+	case "cte_dual_star":
+		// `*` over dual is the enclosing document: a CTE evaluated on the way must not become a column later on
+		q = fmt.Sprintf("WITH c AS (SELECT id, a FROM %s) SELECT *, (SELECT a FROM `<-c` WHERE id = 1) AS y FROM dual", T)
 	case "grid":
 		q = fmt.Sprintf("SELECT %s FROM %sgrid", g.items("", true), root)
 	case "grid_cte":
